@@ -1029,7 +1029,7 @@ def imported_name_resolve(run):
     core.explore(lambda: None, lambda p, out: go(p))
 
 
-@harness(['C07'], 'supp.project.Project.list_packages', bounded='directory trees: 2 source roots (the later one holding a plain directory or a package of the same name) x every subset of 7 entry kinds (module, package, plain directory, '
+@harness(['C07', 'C12'], 'supp.project.Project.list_packages', bounded='directory trees: 2 source roots (the later one holding a plain directory or a package of the same name) x every subset of 7 entry kinds (module, package, plain directory, '
          'compiled-suffix file, __init__.py, non-python file, files / packages whose name is not an identifier) in the listed directory')
 def list_packages_bounded(run):
     """BOUNDED stand-in (nested loops over os.listdir results with suffix stripping): the children listed for a package root are exactly
